@@ -17,6 +17,8 @@
      Dev_RegexParamAfterDot  known finding: (I) fails in exactly this way - a regex parameter right
                            after the `.` of a segmented measurement name is rejected (ParseIdent)
                            although the regex literal is accepted there
+     (error-accepted is also the class of the history `parse T with bindings ; SetParams(none) ; parse T again`
+      on one parser when the second parse succeeds: obs.rebind)
      panic                                                                                     *)
 EXTENDS Params, Json, CSV, IOUtils
 
@@ -76,7 +78,12 @@ Verdicts(r) ==
             ELSE IF OK(o, "inl") THEN
                  (IF RegexAfterDot(r) THEN {V("Dev_RegexParamAfterDot", "")} ELSE {V("inline-mismatch", "param-error-literal-ok:" \o Kinds(r))})
             ELSE {}
-  IN sv \cup iv
+      \* history on one parser: bindings replaced by none - the placeholder is unbound again and must be an error
+      rv == IF ~Has(o, "rebind") THEN {}
+            ELSE IF Has(o.rebind, "panic") THEN {V("panic", "rebind " \o r.tpl)}
+            ELSE IF Has(o.rebind, "second") /\ o.rebind.second = "ok" THEN {V("error-accepted", "stale bindings after SetParams")}
+            ELSE {}
+  IN sv \cup iv \cup rv
 
 \* non-trivial: a bound value arrived in an AST; ns / ni / ne count the records on which (S), (I)
 \* and (E) were actually evaluated
